@@ -26,6 +26,7 @@ abbrev Ret := Nat
 def OK : Ret := 0
 def STREAM_END : Ret := 1
 def MEM_ERROR : Ret := 5
+def MEMLIMIT_ERROR : Ret := 6
 def OPTIONS_ERROR : Ret := 8
 def PROG_ERROR : Ret := 11
 def RET_NULL : Ret := 98
@@ -155,6 +156,7 @@ structure Sizes where
   lzma2ChunkMax : Nat    -- LZMA2_CHUNK_MAX
   hash2Size : Nat
   hash3Size : Nat
+  memusageBase : Nat     -- LZMA_MEMUSAGE_BASE
 deriving Repr
 
 /-! ## `lzma_index` objects -/
@@ -375,6 +377,9 @@ def allocSelf (sz : Nat) (fresh : NodeOp) : NodeOp := fun n =>
 
 /-- data-only update (never touches ownership) -/
 def setData (i v : Nat) : NodeOp := fun n => pure (OK, n.setDat i v)
+
+/-- `++coder->counter` (data only) -/
+def incData (i : Nat) : NodeOp := fun n => pure (OK, n.setDat i (n.dat i + 1))
 
 def whenD (c : Node → Bool) (op : NodeOp) : NodeOp := fun n => if c n then op n else pure (OK, n)
 
@@ -712,21 +717,61 @@ def streamEncode (c : Chain) (act len : Nat) : NodeOp := fun n =>
     if act == 3 then onSub1 (guard I_IENC ⨟ allocSelf S.indexEnc skip) ⨟ setData D_SEQ SEQ_INDEX else skip
   (openBlock ⨟ dirty ⨟ closeBlock ⨟ finish) n
 
-def streamDecoderInit : NodeOp :=
-  guard I_SDEC ⨟ allocSelf S.streamDec skip ⨟ ensureBuf B_INDEX_HASH (some S.indexHash)
+-- data slots of the stream decoder
+def D_SD_MEMLIMIT := 0   -- coder->memlimit
+def D_SD_MEMUSAGE := 1   -- coder->memusage
+def D_SD_DONE := 2       -- number of Blocks decoded so far (where a resumed lzma_code continues)
 
-/-- one Block of `stream_decode`: Block Header decoding allocates the filter options (temporaries), the Block
-    decoder is (re)initialised, the temporaries are freed. -/
+/-- "no limit" (`UINT64_MAX`) -/
+def NOLIMIT : Nat := 2 ^ 64 - 1
+
+def streamDecoderInit (memlimit : Nat) : NodeOp :=
+  guard I_SDEC ⨟ allocSelf S.streamDec skip
+    ⨟ setData D_SD_MEMLIMIT (max 1 memlimit) ⨟ setData D_SD_MEMUSAGE S.memusageBase ⨟ setData D_SD_DONE 0
+    ⨟ ensureBuf B_INDEX_HASH (some S.indexHash)
+
+/-- `lzma_validate_chain` for decoders: 1-4 filters, LZMA1/LZMA2 only as the last one, BCJ/Delta never last -/
+def chainShapeOk : Chain → Bool
+  | [] => false
+  | [.lzma ..] => true
+  | [_] => false
+  | (.lzma ..) :: _ => false
+  | _ :: rest => chainShapeOk rest
+
+def filterMemusage : Filter → Nat
+  | .lzma v2 dict .. =>
+    (if v2 then S.lzma2Dec else 0) + S.lzma1Dec + S.lzDec + dict + 2 * S.dictRepeatMax + S.dictExtra
+  | .delta _ => S.delta
+  | .bcj .. => 1024
+
+/-- `lzma_raw_decoder_memusage(filters)`; `none` = `UINT64_MAX` (chain not usable) -/
+def chainMemusage (c : Chain) : Option Nat :=
+  if chainShapeOk c && c.length ≤ 4 then some ((c.map (filterMemusage S)).foldl (· + ·) S.memusageBase) else none
+
+/-- SEQ_BLOCK_INIT of `stream_decode`: Block Header decoding allocates the filter options (temporaries on the C stack);
+    the memory usage of the chain is computed; `UINT64_MAX` -> LZMA_OPTIONS_ERROR; over the limit -> LZMA_MEMLIMIT_ERROR
+    (recoverable: the decoder stays at SEQ_BLOCK_INIT and a later lzma_code decodes the header again); otherwise the
+    Block decoder is (re)initialised. On EVERY path the temporaries are freed before returning. -/
 def streamDecodeBlock (c : Chain) : NodeOp :=
-  withTempOpts (c.map (optSizeDecode S)) (onSub0 (blockDecoderInit S c))
+  withTempOpts (c.map (optSizeDecode S)) (fun n =>
+    match chainMemusage S c with
+    | none => failOp OPTIONS_ERROR n
+    | some u =>
+      (setData D_SD_MEMUSAGE u
+        ⨟ (fun n => if u > n.dat D_SD_MEMLIMIT then failOp MEMLIMIT_ERROR n else onSub0 (blockDecoderInit S c) n)) n)
+  ⨟ incData D_SD_DONE
 
 def repeatOp : Nat → NodeOp → NodeOp
   | 0, _ => skip
   | n + 1, op => op ⨟ repeatOp n op
 
-/-- decoding `nstreams` concatenated Streams of `nblocks` Blocks each -/
-def streamDecode (c : Chain) (nblocks nstreams : Nat) : NodeOp :=
-  repeatOp (nblocks * nstreams) (streamDecodeBlock S c)
+/-- decoding `nstreams` concatenated Streams of `nblocks` Blocks each; continues after the Blocks already done -/
+def streamDecode (c : Chain) (nblocks nstreams : Nat) : NodeOp := fun n =>
+  repeatOp (nblocks * nstreams - n.dat D_SD_DONE) (streamDecodeBlock S c) n
+
+/-- `stream_decoder_memconfig` with `new_memlimit != 0` -/
+def streamDecoderMemlimit (new : Nat) : NodeOp := fun n =>
+  if new < n.dat D_SD_MEMUSAGE then failOp MEMLIMIT_ERROR n else setData D_SD_MEMLIMIT new n
 
 def aloneEncoderInit (f : Filter) : NodeOp :=
   guard I_AENC ⨟ allocSelf S.aloneEnc skip ⨟ onSub0 (nextFilterInit S true [f])
@@ -737,7 +782,20 @@ def microEncoderInit (f : Filter) : NodeOp :=
 def aloneDecoderInit : NodeOp := guard I_ALONEDEC ⨟ allocSelf S.aloneDec skip
 def lzipDecoderInit : NodeOp := guard I_LZIPDEC ⨟ allocSelf S.lzipDec skip
 def microDecoderInit : NodeOp := guard I_MLDEC ⨟ allocSelf S.microDec skip
-def autoDecoderInit : NodeOp := guard I_AUTODEC ⨟ allocSelf S.autoDec skip
+-- data slots of the auto decoder
+def D_AUTO_MEMLIMIT := 0
+def D_AUTO_STARTED := 1   -- sequence != SEQ_INIT: the sub-decoder has been chosen and initialised
+
+def autoDecoderInit (memlimit : Nat) : NodeOp :=
+  guard I_AUTODEC ⨟ allocSelf S.autoDec skip ⨟ setData D_AUTO_MEMLIMIT (max 1 memlimit) ⨟ setData D_AUTO_STARTED 0
+
+/-- `auto_decoder_memconfig`: forwarded to the sub-decoder once there is one -/
+def autoDecoderMemlimit (new : Nat) : NodeOp := fun n =>
+  if n.sub0.init == I_SDEC && !n.sub0.isNull then      -- coder->next.memconfig != NULL
+    (onSub0 (streamDecoderMemlimit new) ⨟ setData D_AUTO_MEMLIMIT new) n
+  else if n.sub0.isNull then
+    (if new < S.memusageBase then failOp MEMLIMIT_ERROR n else setData D_AUTO_MEMLIMIT new n)
+  else failOp PROG_ERROR n      -- .lzma / .lz sub-decoders: not modelled (the driver does not compare the code)
 
 /-- SEQ_CODER_INIT of the .lzma / .lz / MicroLZMA decoders: `lzma_next_filter_init` at decode time; on
     failure the error is returned and the half-initialised LZ decoder STAYS in `coder->next`. -/
@@ -865,7 +923,10 @@ def decodeOp (r : Recipe) : NodeOp := fun n =>
     match r with | .mlz d => lzmaDecodeInit S d n | _ => pure (PROG_ERROR, n)
   else if i == I_AUTODEC then
     match r with
-    | .xz c b s => (onSub0 (streamDecoderInit S) ⨟ onSub0 (streamDecode S c b s)) n
+    | .xz c b s =>
+      (whenD (fun n => n.dat D_AUTO_STARTED == 0)
+          (onSub0 (streamDecoderInit S (n.dat D_AUTO_MEMLIMIT)) ⨟ setData D_AUTO_STARTED 1)
+        ⨟ onSub0 (streamDecode S c b s)) n
     | .lz d => (onSub0 (lzipDecoderInit S) ⨟ onSub0 (lzmaDecodeInit S d)) n
     | .lzma d => (onSub0 (aloneDecoderInit S) ⨟ onSub0 (lzmaDecodeInit S d)) n
     | _ => pure (PROG_ERROR, n)
@@ -899,8 +960,8 @@ inductive Op where
   | blockEncoder (c : Chain)
   | blockDecoder (c : Chain)
   | indexEncoder
-  | streamDecoder
-  | autoDecoder
+  | streamDecoder (memlimit : Nat)
+  | autoDecoder (memlimit : Nat)
   | aloneDecoder
   | lzipDecoder
   | microDecoder
@@ -909,6 +970,7 @@ inductive Op where
   -- coding on the handle
   | encode (c : Chain) (act len : Nat)      -- c = the chain the stream encoder currently uses
   | decode (r : Recipe) (slot : Nat)        -- slot = where idec/fidec deliver the Index
+  | memlimitSet (new : Nat)                 -- lzma_memlimit_set on a stream / auto decoder
   | filtersUpdate (cur c : Chain)           -- cur = the chain the stream encoder currently uses
   | badFlagsInit (which : Nat)              -- stream / lzip / auto decoder init with unsupported flags: LZMA_OPTIONS_ERROR
   | lzmaEnd
@@ -953,8 +1015,11 @@ def runOp (w : World) : Op → M (Ret × World)
   | .blockEncoder c => strmInit S (blockEncoderInit S c) w
   | .blockDecoder c => strmInit S (blockDecoderInit S c) w
   | .indexEncoder => strmInit S (indexEncoderInit S) w
-  | .streamDecoder => strmInit S (streamDecoderInit S) w
-  | .autoDecoder => strmInit S (autoDecoderInit S) w
+  | .streamDecoder ml => strmInit S (streamDecoderInit S ml) w
+  | .autoDecoder ml => strmInit S (autoDecoderInit S ml) w
+  | .memlimitSet new =>
+    onRoot (fun n => if n.init == I_SDEC then streamDecoderMemlimit new n
+                     else if n.init == I_AUTODEC then autoDecoderMemlimit S new n else pure (PROG_ERROR, n)) w
   | .aloneDecoder => strmInit S (aloneDecoderInit S) w
   | .lzipDecoder => strmInit S (lzipDecoderInit S) w
   | .microDecoder => strmInit S (microDecoderInit S) w
@@ -1046,7 +1111,7 @@ def runOp (w : World) : Op → M (Ret × World)
     let r ← allocFreeList [some S.strAlloc]
     pure (r, w)
   | .streamBufferDecode c b s => do
-    let r ← tempCoder (streamDecoderInit S ⨟ streamDecode S c b s)
+    let r ← tempCoder (streamDecoderInit S NOLIMIT ⨟ streamDecode S c b s)
     pure (r, w)
   | .streamBufferEncode c => do
     -- lzma_block_buffer_encode (temporary raw encoder), then a temporary Index with one Record
